@@ -57,7 +57,8 @@ func checkC02(p *Prog, r *Report) {
 	rPayload := r.Rule("payload", "the bytes written are the received line plus exactly one newline, in one write")
 	rErr := r.Rule("errors-stop", "write and flush errors leave the loop; closed input and cancellation return without consuming further lines")
 	rGo := r.Rule("no-handoff", "no goroutine is started in the input proxy")
-	rIns := r.Rule("insert-one-entry", "ChanWriter.Write sends its whole argument as one entry; insert writes the payload once")
+	rIns := r.Rule("insert-one-entry", "ChanWriter.Write sends its whole argument as one entry; insert hands the whole payload to one Write call")
+	rTW := r.Rule("transport-writer", "what the handlers give the broker as the stream writer is the ResponseWriter itself, or a type which offers FlushError")
 
 	fn, sel, arm := findProxyIn(p)
 	if nil == fn {
@@ -285,6 +286,57 @@ func checkC02(p *Prog, r *Report) {
 	}
 
 	checkInsertOneEntry(p, r, rIns)
+	checkTransportWriter(p, r, rTW)
+}
+
+// checkTransportWriter: the writer argument of ConnectIn / ConnectInOut in
+// the route handlers.
+func checkTransportWriter(p *Prog, r *Report, ru *Rule) {
+	n := 0
+	for _, rt := range muxRoutes(p) {
+		if nil == rt.Handler {
+			continue
+		}
+		for _, f := range withAnons(rt.Handler) {
+			eachInstr(f, func(i ssa.Instruction) {
+				cc := callCommon(i)
+				if nil == cc || nil == cc.StaticCallee() || "Broker" != recvTypeName(cc.StaticCallee()) {
+					return
+				}
+				if "ConnectIn" != cc.StaticCallee().Name() && "ConnectInOut" != cc.StaticCallee().Name() {
+					return
+				}
+				for k, pa := range cc.StaticCallee().Params {
+					if !typeIs(pa.Type(), "io", "Writer") {
+						continue
+					}
+					n++
+					c := fmt.Sprintf("%s→%s:writer", fnName(rt.Handler), cc.StaticCallee().Name())
+					w := stripConv(cc.Args[k], false)
+					if wp, ok := w.(*ssa.Parameter); ok && typeIs(wp.Type(), "net/http", "ResponseWriter") {
+						ru.OK(c, posOf(i), "the handler's own http.ResponseWriter")
+						continue
+					}
+					/* A wrapper: must itself offer FlushError() error. */
+					ms := p.SSA.MethodSets.MethodSet(w.Type())
+					has := false
+					for m := 0; m < ms.Len(); m++ {
+						if "FlushError" == ms.At(m).Obj().Name() {
+							has = true
+						}
+					}
+					if has {
+						ru.OK(c, posOf(i), "a writer of type %s, which offers FlushError", w.Type())
+					} else {
+						ru.Bad(c, posOf(i), "the stream writer handed to the broker is a %s without a FlushError method: the input proxy falls back to http.Flusher.Flush, which cannot report failure, so a failed flush counts as delivery and the next line is lost too", w.Type())
+					}
+				}
+			})
+		}
+	}
+	if n < 2 {
+		ru.Unproven("handlers:writer", token.NoPos, "%d stream writers found in the handlers, at least 2 expected", n)
+	}
 }
 
 // armRecvIndex returns the position of arm among the receive arms of sel
@@ -481,16 +533,35 @@ func checkInsertOneEntry(p *Prog, r *Report, ru *Rule) {
 			return
 		}
 		n := calleeName(cc)
-		if "(io.Writer).Write" == n || "(github.com/magisterquis/curlrevshell/lib/opshell.ChanWriter).Write" == n || "io.Copy" == n || "io.WriteString" == n || "(io.Writer).Write" == n {
+		switch n {
+		case "(io.Writer).Write", "(github.com/magisterquis/curlrevshell/lib/opshell.ChanWriter).Write":
 			nw++
 			if canReach(locOf(i), i) {
 				ru.Bad(fnName(ins)+":one-write", posOf(i), "insert writes the payload in a loop")
+				return
 			}
+			/* The argument is the generator's whole result. */
+			arg := cc.Args[len(cc.Args)-1]
+			whole := false
+			for _, x := range valueRoots(arg, nil) {
+				if "call" == x.Kind && 0 == x.Idx {
+					whole = true
+				}
+			}
+			if _, isSlice := arg.(*ssa.Slice); isSlice {
+				whole = false
+			}
+			if !whole {
+				ru.Bad(fnName(ins)+":one-write", posOf(i), "what insert writes is not the generator's whole payload")
+			}
+		case "io.Copy", "io.CopyBuffer", "io.CopyN", "(*bufio.Writer).ReadFrom", "io.WriteString", "(*bytes.Buffer).WriteTo", "(*bytes.Reader).WriteTo":
+			nw += 100
+			ru.Bad(fnName(ins)+":one-write", posOf(i), "insert feeds the payload through %s, which may split it into several Write calls (io.Copy uses 32 KiB chunks): each becomes a separate input entry with its own newline, and other input can be interleaved", n)
 		}
 	})
 	if 1 == nw {
-		ru.OK(fnName(ins)+":one-write", ins.Pos(), "the payload is written with a single Write")
-	} else {
+		ru.OK(fnName(ins)+":one-write", ins.Pos(), "the payload is handed to a single Write call")
+	} else if nw < 100 {
 		ru.Bad(fnName(ins)+":one-write", ins.Pos(), "insert performs %d writes of the payload; one expected", nw)
 	}
 }
